@@ -276,7 +276,7 @@ impl Runner {
                 if el - self.logical > 80 { self.drift_bad = true; }
                 (newop, if ok { vec![] } else { vec![b("SWEEPTIMEOUT")] })
             }
-            b"SUBCMD" | b"DRAIN" => {
+            b"SUBCMD" | b"DRAIN" | b"SUBRAW" => {
                 // [SUBCMD c t request]: send the request and an ECHO marker in ONE write (so the server sees one
                 // batch) and collect every frame that arrives on c before the marker's reply: pushed messages
                 // not read yet, frames pushed by this very request, its confirmations / reply.
@@ -287,7 +287,11 @@ impl Runner {
                 let mut newop = op.to_vec(); newop[2] = Tok::I(self.logical);
                 let mut nm = vec![]; let mut nargs = 0;
                 let mut wire = vec![];
-                if &name[..] == b"SUBCMD" {
+                if &name[..] == b"SUBRAW" {
+                    // [SUBRAW c t bytes]: a pipelined chunk of raw bytes instead of one request (same output as RAW,
+                    // but delimited by the marker instead of a quiet period)
+                    wire.extend_from_slice(tok_bytes(&op[3]));
+                } else if &name[..] == b"SUBCMD" {
                     let mut pos = 3;
                     let req = match V::dec(op, &mut pos) { Some(r) => r, None => return (op.to_vec(), vec![b("BADFRAME")]) };
                     nm = req_name(&req); if let V::Array(l) = &req { nargs = l.len(); }
@@ -310,8 +314,15 @@ impl Runner {
                     }
                 }
                 // a connection that has sent QUIT is closed by the server at the end of the loop iteration in
-                // which it has no subscription left: give the EOF time to arrive
-                if may_close && closed == 0 && odd.is_none() { if let Rd::Closed = cl.read(400) { closed = 1; } }
+                // which it has no subscription left: a second marker is then never answered (EOF instead);
+                // if the connection lingers (closing-leak) it is
+                if may_close && closed == 0 && odd.is_none() {
+                    let m2 = format!("__verif_marker_{}", MARK.fetch_add(1, std::sync::atomic::Ordering::SeqCst)).into_bytes();
+                    let mut w2 = vec![]; V::cmd(&[b"ECHO", &m2]).wire(&mut w2);
+                    if !cl.send(&w2) { closed = 1; } else {
+                        loop { match cl.read(3000) { Rd::Val(V::Bulk(x)) if x == m2 => break, Rd::Val(v) => frames.push(v), Rd::Timeout => { odd = Some("TIMEOUT"); break; } Rd::Closed => { closed = 1; break; } Rd::Bad => { odd = Some("GARBAGE"); break; } } }
+                    }
+                }
                 if (nm == b"UNSUBSCRIBE" || nm == b"PUNSUBSCRIBE") && nargs == 1 { canon_unsub_all(&nm.to_ascii_lowercase(), &mut frames); }
                 let mut out = vec![i(closed)];
                 for f in canon_pushes(frames) { canon(f).enc(&mut out); }
@@ -382,6 +393,7 @@ pub fn sweep_gate_op() -> Vec<Tok> { vec![b("SWEEP_GATE"), i(0)] }
 pub fn sweep_release_op() -> Vec<Tok> { vec![b("SWEEP_RELEASE"), i(0)] }
 pub fn subcmd_op(conn: i64, args: &[&[u8]]) -> Vec<Tok> { let mut o = vec![b("SUBCMD"), i(conn), i(0)]; V::cmd(args).enc(&mut o); o }
 pub fn subcmd_frame_op(conn: i64, req: &V) -> Vec<Tok> { let mut o = vec![b("SUBCMD"), i(conn), i(0)]; req.enc(&mut o); o }
+pub fn subraw_op(conn: i64, bytes: &[u8]) -> Vec<Tok> { vec![b("SUBRAW"), i(conn), i(0), bv(bytes)] }
 pub fn drain_op(conn: i64) -> Vec<Tok> { vec![b("DRAIN"), i(conn), i(0)] }
 pub fn close_op(conn: i64) -> Vec<Tok> { vec![b("CLOSE"), i(conn)] }
 pub fn server_op(password: &[u8]) -> Vec<Tok> { vec![b("SERVER"), bv(password)] }
